@@ -8,8 +8,10 @@
    sub-frame after every accepted frame, on objects whose mandatory parameters are well typed); and the WHOLE predicate Inv
    (all ten components, every stored frame, the label-like lists and their order) is preserved when a frame of the announced
    shape is appended to a data set that holds analog data (C05_frame_append_preserves_the_agreement) or points only
-   (C05_frame_append_points_only).  NOT yet proved: the whole predicate for replacements and extensions, and for the column
-   and declare calls: decided by the check. *)
+   (C05_frame_append_points_only), or REPLACES any stored frame, frame 0 included (C05_frame_replace_preserves_the_agreement;
+   the general form for any index is C05_frame_call_general).  NOT yet proved: the whole predicate for extensions beyond the
+   count (they leave unfilled frames: a known finding when frame 0 is one of them), and for the column and declare calls:
+   decided by the check. *)
 From EZ Require Import Base Types Api Proofs_Param Proofs_Guards Spec_Inv Proofs_Inv Proofs_Header Spec_Typed Proofs_Updaters Proofs_ApiSafe Proofs_InvFrame Float32 Run.
 Local Open Scope N_scope.
 
@@ -173,6 +175,42 @@ Theorem C05_frame_append_preserves_the_agreement : forall f_key f_tosize f_div f
 Proof. exact frame_append_keeps_inv. Qed.
 Print Assumptions C05_frame_append_preserves_the_agreement.
 
+(* replacing a stored frame — any index below the count, frame 0 (the shape reference of the updaters) included *)
+Theorem C05_frame_replace_preserves_the_agreement : forall f_key f_tosize f_div f_is_zero,
+  (forall x e, f_key x <> Throw e) -> (forall x e, f_tosize x <> Throw e) ->
+  forall f i s s' f0 ft a,
+  Inv s -> MT (groups s) ->
+  frames s = f0 :: ft -> fr_subs f0 <> [] ->
+  lk_int0 (groups s) nm_ANALOG nm_USED = Some a -> a <> 0 ->
+  announced s f ->
+  i < nlen (frames s) ->
+  nlen (frames s) < 2147483648 -> nlen (fr_pts f0) < 2147483648 -> a < 2147483648 -> a * h_byframe (hdr s) < two64 ->
+  api_frame f_key f_tosize f_div f_is_zero f (Some i) s = ROk tt s' ->
+  Inv s'.
+Proof. exact frame_replace_keeps_inv. Qed.
+Print Assumptions C05_frame_replace_preserves_the_agreement.
+
+(* the general form: whatever the index (append, replace, extend), if the frame list after the store has a first frame with
+   analog data of the announced shape and names, and every filled frame has the announced shape, the agreement holds again *)
+Theorem C05_frame_call_general : forall f_key f_tosize f_div f_is_zero,
+  (forall x e, f_key x <> Throw e) -> (forall x e, f_tosize x <> Throw e) ->
+  forall f idx s s' fs' g0 gt u a,
+  Inv s -> MT (groups s) ->
+  put empty_frame (frames s) f idx = Ok fs' ->
+  lk_int0 (groups s) nm_POINT nm_USED = Some u ->
+  lk_int0 (groups s) nm_ANALOG nm_USED = Some a -> a <> 0 -> 1 <= h_byframe (hdr s) ->
+  fs' = g0 :: gt -> fr_subs g0 <> [] -> nlen (fr_subs g0) = h_byframe (hdr s) -> nlen (fr_pts g0) = u -> nan_of g0 = a ->
+  lk_strs (groups s) nm_POINT nm_LABELS = Some (map pt_name (fr_pts g0)) ->
+  (forall sf0 t, fr_subs g0 = sf0 :: t -> lk_strs (groups s) nm_ANALOG nm_LABELS = Some (map ch_name sf0)) ->
+  forallb (fun x => nlen (fr_pts x) =? u) (filter filled fs') = true ->
+  forallb (fun x => nlen (fr_subs x) =? h_byframe (hdr s)) (filter filled fs') = true ->
+  forallb (fun x => forallb (fun sf : subframe => nlen sf =? a) (fr_subs x)) (filter filled fs') = true ->
+  nlen fs' < 2147483648 -> u < 2147483648 -> a < 2147483648 -> a * h_byframe (hdr s) < two64 ->
+  api_frame f_key f_tosize f_div f_is_zero f idx s = ROk tt s' ->
+  Inv s'.
+Proof. exact frame_call_keeps_inv. Qed.
+Print Assumptions C05_frame_call_general.
+
 (* the same for a data set that holds points only: no channel is declared and the rates announce no sub-frame (POINT:RATE
    truncates to at least 1, ANALOG:RATE / POINT:RATE truncates to 0 — the sub-frame count then comes from the rates) *)
 Theorem C05_frame_append_points_only : forall f_key f_tosize f_div f_is_zero,
@@ -254,3 +292,27 @@ Proof.
   - vm_compute. reflexivity.
 Qed.
 Print Assumptions C05_frame_append_points_only_nonvacuous.
+
+(* non-vacuity of the replacement theorem: frame 0 of the demo data set is replaced; the agreement comes from the theorem *)
+Example C05_frame_replace_nonvacuous :
+  exists s', step_x c05_demo_state (OFrame c05_demo_frame (Some 0)) = ROk tt s' /\ frames s' = [c05_demo_frame] /\ Inv s'.
+Proof.
+  destruct (step_x c05_demo_state (OFrame c05_demo_frame (Some 0))) as [[] s'| |] eqn:E; [|vm_compute in E; discriminate|vm_compute in E; discriminate].
+  exists s'. split; [reflexivity|]. split; [vm_compute in E; injection E as <-; reflexivity|].
+  refine (frame_replace_keeps_inv f_key_impl f_tosize_impl f_div_impl f_is_zero_impl f_key_impl_nothrow f_tosize_impl_nothrow
+            c05_demo_frame 0 c05_demo_state s' (mkFrame [mkPoint [97] 1 2 3 4] [[mkChan [99] 5]; [mkChan [99] 6]]) [] 1 _ _ _ _ _ _ _ _ _ _ _ _ E).
+  - vm_compute. reflexivity.
+  - vm_compute. reflexivity.
+  - reflexivity.
+  - discriminate.
+  - vm_compute. reflexivity.
+  - discriminate.
+  - split; [vm_compute; reflexivity|]. split; [vm_compute; reflexivity|].
+    intros sf [<-|[<-|[]]]; vm_compute; reflexivity.
+  - vm_compute. reflexivity.
+  - vm_compute. reflexivity.
+  - vm_compute. reflexivity.
+  - vm_compute. reflexivity.
+  - vm_compute. reflexivity.
+Qed.
+Print Assumptions C05_frame_replace_nonvacuous.
